@@ -101,13 +101,13 @@ func init() {
 	register(&CheckDef{
 		ID:    "C12",
 		Level: "exploration",
-		Rule:  "part 1: seeded walks of TryLock/TryRLock/CanLock/CanRLock/Unlock/State by 2-4 guards on one real litefs.RWMutex, each result and the resulting guard/mutex states compared with the three-line POSIX specification and the OnLockStateChange callback checked against the specification's transitions; a case is one (abstract guard vector, guard, operation) triple and the evidence reports reached/reachable pairs of the specification's closure. part 2: goroutines in a synctest bubble issue the same operations plus blocking Lock/RLock under a seeded cooperative scheduler; the invoke/return history stamped with driver event numbers is checked with porcupine against the sequential model, and blocking calls must return within one poll interval (fake clock) of the lock becoming free or their context ending; non-trivial = a run with at least one contended operation",
+		Rule:  "part 1: seeded walks of TryLock/TryRLock/CanLock/CanRLock/Unlock/State by 2-4 guards on one real litefs.RWMutex, each result and the resulting guard/mutex states compared with the three-line POSIX specification and the OnLockStateChange callback checked against the specification's transitions; a case is one (abstract guard vector, guard, operation) triple and the evidence reports reached/reachable pairs of the specification's closure. part 2: goroutines in a synctest bubble issue the same operations plus blocking Lock/RLock under a seeded cooperative scheduler; the invoke/return history stamped with driver event numbers is checked with porcupine against the sequential model, and blocking calls must return within one poll interval (fake clock) of the lock becoming free or their context ending; part 3: the same operations at the database's per-owner interface (DB.TryLocks/TryRLocks/CanLock/CanRLock/Unlock on a read-mark lock of a real database) by 2-4 owners with one or two goroutines each (threads of one process share the lock owner, also on its first contact with the database), on a binary in which every acquisition of a sync mutex inside LiteFS is a scheduling point (tools/yieldinst); the history is checked with porcupine against the same specification per owner and at the end the lock must be free; non-trivial = a run with at least one contended operation",
 		Run:   runC12,
 		NonTrivial: func(r *Run) bool {
 			return r.Stats["c12.contended"] > 0
 		},
 		Assumptions: []string{"porcupine Unknown (timeout) is reported as harness trouble, never as a violation"},
-		Real:        []string{"litefs.RWMutex / RWMutexGuard"},
+		Real:        []string{"litefs.RWMutex / RWMutexGuard", "DB guard sets: CreateGuardSetIfNotExists, TryLocks, TryRLocks, CanLock, CanRLock, Unlock (part 3, mutex-instrumented copy of the same source)"},
 		Stub:        []string{"none (the scheduler and fake clock are the environment)"},
 	})
 }
@@ -125,13 +125,169 @@ func runC12(r *Run) {
 	t := r.Tape
 	nG := t.Range(2, 4)
 	r.Cfg["guards"] = nG
-	if t.Chance(1, 2) {
+	switch t.Pick([]int{5, 4, 3}) {
+	case 0:
 		r.Cfg["part"] = "sequential"
 		c12Sequential(r, nG)
-	} else {
+	case 1:
 		r.Cfg["part"] = "concurrent"
 		c12Concurrent(r, nG)
+	default:
+		r.Cfg["part"] = "owners"
+		c12Owners(r, nG)
 	}
+}
+
+// c12Owners (part 3): the same specification one level up, at the database's
+// per-owner lock interface (DB.TryLocks / TryRLocks / CanLock / CanRLock /
+// Unlock by lock owner), which is what a FUSE lock request reaches. An owner is
+// a process: several goroutines (threads, or an acquire racing a query) may act
+// for one owner, also on the owner's very first contact with the database. When
+// the binary was built with mutex scheduling points (bin/build mutex) the
+// scheduler interleaves the goroutines at every mutex acquisition inside LiteFS.
+func c12Owners(r *Run, nOwners int) {
+	t := r.Tape
+	n := newStaticPrimary(r, false, nil)
+	if n == nil {
+		return
+	}
+	const dbName = "db"
+	c := n.NewConn(dbName, ModeDelete, 4096)
+	if e := c.Open(); e != 0 {
+		r.Inconclusive("create: %v", e)
+		return
+	}
+	if res := c.WriteTx(TxProgram{NewSize: 2, Outcome: OutCommit}, nil); res.Outcome != OutCommit {
+		r.Inconclusive("create: %s", res.Outcome)
+		return
+	}
+	c.Close()
+	db := n.Store.DB(dbName)
+	if db == nil {
+		r.Inconclusive("no database")
+		return
+	}
+	// a read-mark lock: taking and releasing it has no side effect in LiteFS
+	lockType := []litefs.LockType{litefs.LockTypeRead2}
+	s := r.NewSched()
+	s.Stick = t.Range(20, 80)
+	s.MaxTick = 500 * time.Microsecond
+	r.MutexSeam = MutexYieldBuilt && t.Chance(4, 5)
+	r.Cfg["mutex_seam"] = r.MutexSeam
+	// goroutines: one or two per owner
+	type thread struct {
+		owner int
+		prog  []string
+	}
+	var threads []*thread
+	for o := 0; o < nOwners; o++ {
+		k := 1 + t.Next(2)
+		for j := 0; j < k; j++ {
+			threads = append(threads, &thread{owner: o})
+		}
+	}
+	nops := t.Range(4, 24)
+	for k := 0; k < nops; k++ {
+		th := threads[t.Next(len(threads))]
+		th.prog = append(th.prog, []string{"lock", "rlock", "unlock", "canlock", "canrlock"}[t.Pick([]int{25, 25, 25, 13, 12})])
+	}
+	base := uint64(t.Range(1, 1000)) * 1000
+	var mu sync.Mutex
+	var ops []porcupine.Operation
+	var seq int64
+	stamp := func() int64 { mu.Lock(); seq++; v := seq; mu.Unlock(); return v }
+	var wg sync.WaitGroup
+	ctx := context.Background()
+	for ti, th := range threads {
+		ti, th := ti, th
+		wg.Add(1)
+		s.Go(fmt.Sprintf("o%dt%d", th.owner, ti), func() {
+			defer wg.Done()
+			owner := base + uint64(th.owner)
+			for _, op := range th.prog {
+				s.Yield(0, "op", op)
+				if s.stopping.Load() {
+					return
+				}
+				call := stamp()
+				var out c12Out
+				switch op {
+				case "lock":
+					ok, err := db.TryLocks(ctx, owner, lockType)
+					out.OK = ok && err == nil
+				case "rlock":
+					out.OK = db.TryRLocks(ctx, owner, lockType)
+				case "unlock":
+					_ = db.Unlock(ctx, owner, lockType)
+					out.OK = true
+				case "canlock":
+					out.OK, _ = db.CanLock(ctx, owner, lockType)
+				case "canrlock":
+					out.OK = db.CanRLock(ctx, owner, lockType)
+				}
+				ret := stamp()
+				mu.Lock()
+				ops = append(ops, porcupine.Operation{ClientId: ti, Input: c12Op{th.owner, op}, Call: call, Output: out, Return: ret})
+				mu.Unlock()
+			}
+		})
+	}
+	allDone := make(chan struct{})
+	go func() { wg.Wait(); close(allDone) }()
+	finished := func() bool {
+		select {
+		case <-allDone:
+			return true
+		default:
+			return false
+		}
+	}
+	for steps := 0; steps < 6000 && !r.Failed() && !finished(); steps++ {
+		if !s.StepOnce(nil, true) {
+			time.Sleep(time.Millisecond)
+		}
+	}
+	s.Stop()
+	for i := 0; i < 1000 && !finished(); i++ {
+		time.Sleep(time.Millisecond)
+		s.Settle()
+	}
+	if !finished() {
+		r.Inconclusive("c12: owner threads did not finish")
+		return
+	}
+	mu.Lock()
+	hist := append([]porcupine.Operation(nil), ops...)
+	mu.Unlock()
+	shared := 0
+	for _, th := range threads {
+		for _, o := range threads {
+			if o != th && o.owner == th.owner && len(o.prog) > 0 && len(th.prog) > 0 {
+				shared++
+			}
+		}
+	}
+	if shared > 0 {
+		r.Count("c12.contended")
+		r.Count("c12.owners.shared-owner")
+	}
+	switch porcupine.CheckOperationsTimeout(c12Model(nOwners), hist, 20*time.Second) {
+	case porcupine.Illegal:
+		var lines []string
+		for _, o := range hist {
+			lines = append(lines, fmt.Sprintf("[%d,%d] thread %d %+v -> %+v", o.Call, o.Return, o.ClientId, o.Input, o.Output))
+		}
+		r.Failf("c12.owners-linearizable", "history of %d lock requests by %d owners (%d threads) on one database lock is not linearizable against the reader/writer specification per owner:\n%s", len(hist), nOwners, len(threads), strings.Join(lines, "\n"))
+	case porcupine.Unknown:
+		r.Inconclusive("porcupine timed out on %d operations", len(hist))
+	}
+	// at the end every owner releases: the lock must be free for a stranger
+	for o := 0; o < nOwners; o++ {
+		_ = db.Unlock(ctx, base+uint64(o), lockType)
+	}
+	ok, st := db.CanLock(ctx, base+999, lockType)
+	r.Check(ok, "c12.owners-leak", "every owner released the lock, yet a new owner is told it is held (%v)", st)
+	r.State("owners/%d/%d/%v", nOwners, len(threads), r.MutexSeam)
 }
 
 func c12Sequential(r *Run, nG int) {
